@@ -52,3 +52,233 @@ pub fn install_to_inclusive(idt: &mut InterruptDescriptorTable, hi: u8) {
 pub fn install_full(idt: &mut InterruptDescriptorTable) {
     set_general_handler!(idt, general_handler, ..);
 }
+
+/// Compile-fail witnesses (type-level remainder of the properties) with their compiling twins. Run by
+/// `cargo +nightly test --doc` in the thorough tier (`no_run`: the twins are compiled, never executed). Every witness
+/// names the crate as a downstream user does and differs from its twin only by the offending expression.
+pub mod cf {
+    /// C03: a `VirtAddr` cannot be forged around the canonical check.
+    /// ```compile_fail,E0423
+    /// let a = x86_64::VirtAddr(0x8000_0000_0000);
+    /// ```
+    /// ```no_run
+    /// let a = x86_64::VirtAddr::new(0x7fff_ffff_f000);
+    /// ```
+    pub struct C03VirtAddrCtor;
+
+    /// C03: the inner value of a `VirtAddr` cannot be overwritten.
+    /// ```compile_fail,E0616
+    /// let mut a = x86_64::VirtAddr::new(0); a.0 = 0x8000_0000_0000;
+    /// ```
+    /// ```no_run
+    /// let mut a = x86_64::VirtAddr::new(0); a = x86_64::VirtAddr::new(0x1000);
+    /// ```
+    pub struct C03VirtAddrField;
+
+    /// C03: a `PhysAddr` cannot be forged around the 52-bit check.
+    /// ```compile_fail,E0423
+    /// let a = x86_64::PhysAddr(1 << 52);
+    /// ```
+    /// ```no_run
+    /// let a = x86_64::PhysAddr::new((1 << 52) - 1);
+    /// ```
+    pub struct C03PhysAddrCtor;
+
+    /// C04: a `PageTableIndex` >= 512 cannot be forged.
+    /// ```compile_fail,E0423
+    /// let i = x86_64::structures::paging::PageTableIndex(512);
+    /// ```
+    /// ```no_run
+    /// let i = x86_64::structures::paging::PageTableIndex::new(511);
+    /// ```
+    pub struct C04IndexCtor;
+
+    /// C04: a `PageOffset` >= 4096 cannot be forged.
+    /// ```compile_fail,E0423
+    /// let i = x86_64::structures::paging::PageOffset(4096);
+    /// ```
+    /// ```no_run
+    /// let i = x86_64::structures::paging::PageOffset::new(4095);
+    /// ```
+    pub struct C04OffsetCtor;
+
+    /// C06: an unaligned `Page` cannot be built from its fields.
+    /// ```compile_fail,E0451
+    /// use x86_64::structures::paging::{Page, Size4KiB};
+    /// let p: Page<Size4KiB> = Page { start_address: x86_64::VirtAddr::new(1), size: core::marker::PhantomData };
+    /// ```
+    /// ```no_run
+    /// use x86_64::structures::paging::{Page, Size4KiB};
+    /// let p: Page<Size4KiB> = Page::containing_address(x86_64::VirtAddr::new(1));
+    /// ```
+    pub struct C06PageFields;
+
+    /// C06: an unaligned `PhysFrame` cannot be built from its fields.
+    /// ```compile_fail,E0451
+    /// use x86_64::structures::paging::{PhysFrame, Size4KiB};
+    /// let p: PhysFrame<Size4KiB> = PhysFrame { start_address: x86_64::PhysAddr::new(1), size: core::marker::PhantomData };
+    /// ```
+    /// ```no_run
+    /// use x86_64::structures::paging::{PhysFrame, Size4KiB};
+    /// let p: PhysFrame<Size4KiB> = PhysFrame::containing_address(x86_64::PhysAddr::new(1));
+    /// ```
+    pub struct C06FrameFields;
+
+    /// C08: the raw word of a page-table entry is reachable only through the entry's API.
+    /// ```compile_fail,E0616
+    /// let mut e = x86_64::structures::paging::page_table::PageTableEntry::new(); e.entry = 1;
+    /// ```
+    /// ```no_run
+    /// let mut e = x86_64::structures::paging::page_table::PageTableEntry::new(); e.set_unused();
+    /// ```
+    pub struct C08EntryField;
+
+    /// C12: the page-fault entry only takes a handler with the page-fault signature.
+    /// ```compile_fail,E0308
+    /// #![feature(abi_x86_interrupt)]
+    /// use x86_64::structures::idt::*;
+    /// extern "x86-interrupt" fn h(_: InterruptStackFrame) {}
+    /// fn f(idt: &mut InterruptDescriptorTable) { idt.page_fault.set_handler_fn(h); }
+    /// ```
+    /// ```no_run
+    /// #![feature(abi_x86_interrupt)]
+    /// use x86_64::structures::idt::*;
+    /// extern "x86-interrupt" fn h(_: InterruptStackFrame) {}
+    /// fn f(idt: &mut InterruptDescriptorTable) { idt.breakpoint.set_handler_fn(h); }
+    /// ```
+    pub struct C12PageFaultSig;
+
+    /// C12: the double-fault entry only takes a diverging handler with an error code.
+    /// ```compile_fail,E0308
+    /// #![feature(abi_x86_interrupt)]
+    /// use x86_64::structures::idt::*;
+    /// extern "x86-interrupt" fn h(_: InterruptStackFrame, _: u64) {}
+    /// fn f(idt: &mut InterruptDescriptorTable) { idt.double_fault.set_handler_fn(h); }
+    /// ```
+    /// ```no_run
+    /// #![feature(abi_x86_interrupt)]
+    /// use x86_64::structures::idt::*;
+    /// extern "x86-interrupt" fn h(_: InterruptStackFrame, _: u64) {}
+    /// fn f(idt: &mut InterruptDescriptorTable) { idt.invalid_tss.set_handler_fn(h); }
+    /// ```
+    pub struct C12DoubleFaultSig;
+
+    /// C12: entries reached by index take plain handlers only.
+    /// ```compile_fail,E0308
+    /// #![feature(abi_x86_interrupt)]
+    /// use x86_64::structures::idt::*;
+    /// extern "x86-interrupt" fn h(_: InterruptStackFrame, _: u64) {}
+    /// fn f(idt: &mut InterruptDescriptorTable) { idt[32].set_handler_fn(h); }
+    /// ```
+    /// ```no_run
+    /// #![feature(abi_x86_interrupt)]
+    /// use x86_64::structures::idt::*;
+    /// extern "x86-interrupt" fn h(_: InterruptStackFrame) {}
+    /// fn f(idt: &mut InterruptDescriptorTable) { idt[32].set_handler_fn(h); }
+    /// ```
+    pub struct C12IndexSig;
+
+    /// C12: the gate's fields are not writable from outside.
+    /// ```compile_fail,E0616
+    /// use x86_64::structures::idt::*;
+    /// fn f(idt: &mut InterruptDescriptorTable) { idt.breakpoint.pointer_low = 1; }
+    /// ```
+    /// ```no_run
+    /// use x86_64::structures::idt::*;
+    /// fn f(idt: &mut InterruptDescriptorTable) { idt.breakpoint = Entry::missing(); }
+    /// ```
+    pub struct C12EntryField;
+
+    /// C14: a GDT without room for the null descriptor is rejected at compile time.
+    /// ```compile_fail,E0080
+    /// use x86_64::structures::gdt::GlobalDescriptorTable;
+    /// const G: GlobalDescriptorTable<0> = GlobalDescriptorTable::<0>::empty();
+    /// let _ = G.limit();
+    /// ```
+    /// ```no_run
+    /// use x86_64::structures::gdt::GlobalDescriptorTable;
+    /// const G: GlobalDescriptorTable<1> = GlobalDescriptorTable::<1>::empty();
+    /// let _ = G.limit();
+    /// ```
+    pub struct C14ZeroCapacity;
+
+    /// C14: the table and its length are not writable from outside.
+    /// ```compile_fail,E0616
+    /// let mut g = x86_64::structures::gdt::GlobalDescriptorTable::<8>::empty(); g.len = 9;
+    /// ```
+    /// ```no_run
+    /// let mut g = x86_64::structures::gdt::GlobalDescriptorTable::<8>::empty(); let _ = g.limit();
+    /// ```
+    pub struct C14LenField;
+
+    /// C18: a read-only port has no `write`.
+    /// ```compile_fail,E0599
+    /// let mut p = x86_64::instructions::port::PortReadOnly::<u8>::new(0x60); unsafe { p.write(1) };
+    /// ```
+    /// ```no_run
+    /// let mut p = x86_64::instructions::port::Port::<u8>::new(0x60); unsafe { p.write(1) };
+    /// ```
+    pub struct C18ReadOnlyWrite;
+
+    /// C18: a write-only port has no `read`.
+    /// ```compile_fail,E0599
+    /// let mut p = x86_64::instructions::port::PortWriteOnly::<u8>::new(0x60); let _ = unsafe { p.read() };
+    /// ```
+    /// ```no_run
+    /// let mut p = x86_64::instructions::port::Port::<u8>::new(0x60); let _ = unsafe { p.read() };
+    /// ```
+    pub struct C18WriteOnlyRead;
+
+    /// C18: there is no 64-bit port access.
+    /// ```compile_fail,E0599
+    /// let mut p = x86_64::instructions::port::Port::<u64>::new(0x60); let _ = unsafe { p.read() };
+    /// ```
+    /// ```no_run
+    /// let mut p = x86_64::instructions::port::Port::<u32>::new(0x60); let _ = unsafe { p.read() };
+    /// ```
+    pub struct C18NoU64;
+
+    /// C19: a `Pcid` >= 4096 cannot be forged.
+    /// ```compile_fail,E0603
+    /// let p = x86_64::instructions::tlb::Pcid(4096);
+    /// ```
+    /// ```no_run
+    /// let p = x86_64::instructions::tlb::Pcid::new(4095);
+    /// ```
+    pub struct C19PcidCtor;
+
+    /// C20: a `RecursivePageTable` cannot be built around `new`'s checks.
+    /// ```compile_fail,E0451
+    /// use x86_64::structures::paging::{RecursivePageTable, PageTable, PageTableIndex};
+    /// fn f(t: &'static mut PageTable) -> RecursivePageTable<'static> { RecursivePageTable { p4: t, recursive_index: PageTableIndex::new(0) } }
+    /// ```
+    /// ```no_run
+    /// use x86_64::structures::paging::{RecursivePageTable, PageTable, PageTableIndex};
+    /// fn f(t: &'static mut PageTable) -> RecursivePageTable<'static> { RecursivePageTable::new(t).unwrap() }
+    /// ```
+    pub struct C20Fields;
+
+    /// C09/C02: building a `MappedPageTable` is an unsafe promise about the table and the translation.
+    /// ```compile_fail,E0133
+    /// use x86_64::structures::paging::{OffsetPageTable, PageTable};
+    /// fn f(t: &'static mut PageTable) { let _ = OffsetPageTable::new(t, x86_64::VirtAddr::new(0)); }
+    /// ```
+    /// ```no_run
+    /// use x86_64::structures::paging::{OffsetPageTable, PageTable};
+    /// fn f(t: &'static mut PageTable) { let _ = unsafe { OffsetPageTable::new(t, x86_64::VirtAddr::new(0)) }; }
+    /// ```
+    pub struct C09UnsafeNew;
+
+    /// C11: a flush token cannot be dropped silently (`#[must_use]`, denied here).
+    /// ```compile_fail
+    /// #![deny(unused_must_use)]
+    /// use x86_64::structures::paging::{mapper::MapperFlush, Page, Size4KiB};
+    /// fn f(p: Page<Size4KiB>) { MapperFlush::new(p); }
+    /// ```
+    /// ```no_run
+    /// #![deny(unused_must_use)]
+    /// use x86_64::structures::paging::{mapper::MapperFlush, Page, Size4KiB};
+    /// fn f(p: Page<Size4KiB>) { MapperFlush::new(p).ignore(); }
+    /// ```
+    pub struct C11MustUse;
+}
